@@ -16,6 +16,7 @@ EXPLANATION = (
     "ArgMatcher::start_custom_arg opens a value group unconditionally (MatchedArg::new_val_group pushes to vals and raw_vals "
     "unconditionally). R7.6 the override relation is stored as declared: Arg::overrides_with pushes the given id and Arg::overrides_with_all extends Arg::overrides with every given id (map(Into::into) only — no filter, so naming the argument itself keeps meaning self-override, as react's `overrides.contains(self)` expects). NOT decided: saturation at exactly 255 and the order under arbitrary interleavings."
     ' R7.6 (added): relation vectors are written only by the declared setters (writer census).'
+    " R7.1 lemma (added): FlatMap keys/values change length in lock-step (ArgMatcher::remove goes through FlatMap::remove). R7.A accessor layer (lib/accessors.py): for the is_*_set / get_* accessors this property's rules name — the bool builder sets and unsets one flag on the right edges and the predicate reads that same flag; builder scope (global/local) as in audit/setting_scope.tsv; no two predicates/builders share a flag; setting/unset_setting/global_setting/is_set forward to the right flag word, the flag word is |=bit / &=!bit / &bit!=0 with bit = 1<<discriminant, _propagate_subcommand hands g_settings to the child's settings and g_settings; plain field getters return their field."
 )
 TRUSTED = ["rustc MIR + HIR", "clapfacts"]
 ASSUMPTIONS = ["u8::saturating_add saturates at 255 (std)"]
